@@ -403,14 +403,16 @@ theorem snapBlockNo_unique (b r : Int) (hb : 0 ≤ b) (h3 : 3 * getElectionPerio
   simp only [getElectionPeriod] at *
   omega
 
-/-- **Current producer set.** Start a DPoS node on a genesis list and let any history happen: blocks offered (and
-connected when they pass the three checks), reorganisations back to any block of the chain, restarts. Then the
-list the node has in force (`Cluster`) is the specified one: the genesis list while the best block is below three
-election periods, else the ranking in the state of block `snapBlockNo best` of the node's OWN current chain.
-Snapshots left over from an abandoned branch never surface (part of the invariant; `AddSnapshot`'s reset on
-reorganisation is dead code in /repo since `maxRefBlockNo` is never assigned, and is not needed).
-Hypothesis: every ranking consists of decodable peer ids — otherwise see `stale_set_after_undecodable_id`. -/
-theorem producer_set_is_ranking {Key : Type} (c : Crypto Key) (iv : Int) (genesis : List String) (evs : List Ev)
+/-- **Current producer set** (`_partial`: under the guard "every ranking entry decodes as a peer id").
+Full statement: start a DPoS node on a genesis list and let any history happen — blocks offered (and connected when
+they pass the three checks), reorganisations back to any block of the chain, restarts; then the list the node has in
+force (`Cluster`) is the specified one: the genesis list while the best block is below three election periods, else
+the ranking in the state of block `snapBlockNo best` of the node's OWN current chain.
+The full statement is FALSE for /repo without the guard (`stale_set_after_undecodable_id`, known finding
+C09-undecodable-ranking-entry-keeps-old-set); under the guard it holds for every history. Snapshots left over from an
+abandoned branch never surface (part of the invariant `Producer.Inv`; `AddSnapshot`'s reset on reorganisation is dead
+code in /repo since `maxRefBlockNo` is never assigned, and is not needed). -/
+theorem producer_set_is_ranking_partial {Key : Type} (c : Crypto Key) (iv : Int) (genesis : List String) (evs : List Ev)
     (hg : RankOk genesis) (hev : ∀ ev ∈ evs, EvOk ev) :
     let n := (Node.init genesis).run c iv evs
     some n.sn.members = specSet genesis n.ranks n.best ∧ n.sn.size = n.sn.members.length
@@ -427,18 +429,26 @@ theorem producer_set_is_ranking {Key : Type} (c : Crypto Key) (iv : Int) (genesi
   rw [hge, hgen] at this
   exact this
 
-/-- **Accepted only if legitimate, over all histories.** Every block a DPoS node ever put on its chain passed the
-three checks with the producer list in force at that moment, and that list was the one the election rule specifies
-for the chain the block extended; hence (by `accept_iff`) its signature verifies over the complete header with the
-key in the header, that key is the specified producer owning the slot, and the timestamp was less than two slots
-ahead of the clock. -/
+/-- **Accepted only if legitimate, over all histories** (no guard). Every block a DPoS node ever put on its chain —
+whatever blocks were offered, whatever reorganisations and restarts happened in between — passed the three checks
+with the producer list in force at that moment; hence (`accept_iff`) its signature verifies over the complete header
+with the key in the header, that key is the member of that list whose position owns the slot of the timestamp, and
+the timestamp was less than two slots ahead of the clock. -/
 theorem accepted_only_legit {Key : Type} (c : Crypto Key) (iv : Int) (genesis : List String) (evs : List Ev)
-    (hg : RankOk genesis) (hev : ∀ ev ∈ evs, EvOk ev)
     (hiv : 0 < iv) (a : Accepted) (ha : a ∈ ((Node.init genesis).run c iv evs).log)
     (hts : 0 < nsToMs a.blk.tsNs) (hnow : 0 < nsToMs a.nowNs)
     (hpos : 0 < a.ids.length) (hlen : a.ids.length < 65535) (hnd : a.ids.Nodup) :
-    Legit c iv a.ids a.nowNs none a.blk.hdr a.blk.no a.blk.tsNs
-      ∧ some a.ids = specSet genesis a.ranks (a.blk.no - 1) := by
+    Legit c iv a.ids a.nowNs none a.blk.hdr a.blk.no a.blk.tsNs := by
+  have h := run_log_accept c iv evs (Node.init genesis) (by intro a ha; simp [Node.init] at ha) a ha
+  exact (accept_iff c iv a.ids a.nowNs none a.blk.hdr a.blk.no a.blk.tsNs hiv hts hnow hpos hlen hnd).1 h
+
+/-- ... and (`_partial`, same guard as `producer_set_is_ranking_partial`) the list in force at that moment was the one
+the election rule specifies for the chain the block extended: the block was signed by the ELECTED producer owning
+its slot. -/
+theorem accepted_by_elected_producer_partial {Key : Type} (c : Crypto Key) (iv : Int) (genesis : List String)
+    (evs : List Ev) (hg : RankOk genesis) (hev : ∀ ev ∈ evs, EvOk ev)
+    (a : Accepted) (ha : a ∈ ((Node.init genesis).run c iv evs).log) :
+    some a.ids = specSet genesis a.ranks (a.blk.no - 1) ∧ a.ranks.length = a.blk.no.toNat := by
   have hi := Inv.init genesis hg
   have h := run_inv c iv evs (Node.init genesis) hi hev (by intro a ha; simp [Node.init] at ha)
   have hgen : (Node.init genesis).sn.genesis = genesis := by
@@ -447,7 +457,17 @@ theorem accepted_only_legit {Key : Type} (c : Crypto Key) (iv : Int) (genesis : 
     simp [Node.init, boot, updateCluster, getCurrent, hs, this]
   have hl := h.2.2 a ha
   rw [hgen] at hl
-  exact ⟨(accept_iff c iv a.ids a.nowNs none a.blk.hdr a.blk.no a.blk.tsNs hiv hts hnow hpos hlen hnd).1 hl.1, hl.2.1⟩
+  exact ⟨hl.2.1, hl.2.2.1⟩
+
+/-- Non-vacuity of the history theorems (a test on sample values): a node with genesis list ["a","b","c"] that is
+offered the block of the example above accepts it (log of length 1) and refuses the same block with signature [2]. -/
+example :
+    let c : Crypto String := { unmarshal := fun b => if b == [7] then some "c" else none,
+                               verify := fun _ _ sig => if sig.isEmpty then none else some (sig == [1]), peerId := some }
+    let hdr (sig : Bytes) : Rec := { raw := fun f => if f == "PubKey" then [7] else if f == "Sign" then sig else [], num := fun _ => 0 }
+    let blk (sig : Bytes) : Blk := { no := 1, tsNs := 1500000000, hdr := hdr sig }
+    (((Node.init ["a", "b", "c"]).run c 1000 [.offer 1200000000 (blk [2]) ["a"], .offer 1200000000 (blk [1]) ["a"]]).log.length = 1)
+    ∧ (((Node.init ["a", "b", "c"]).run c 1000 [.offer 1200000000 (blk [2]) ["a"]]).log.length = 0) := by decide
 
 /-- The hypothesis `RankOk` is needed, and what happens without it is what /repo does (`UpdateCluster` logs "skip BP
 member update" and returns): one undecodable entry in the elected ranking and the OLD list stays in force.
